@@ -159,7 +159,7 @@ theorem Sat.widen' {α} {P : α → Prop} {t : ATag} {xs : List Val} {fs : List 
   cases r with
   | err cs =>
     simp only [_root_.Jmes.widen]
-    split <;> exact Sat.err
+    split <;> (try split) <;> first | exact Sat.nondet | exact Sat.err
   | ok a => exact h
   | nondet => exact h
   | panic w => trivial
